@@ -47,6 +47,10 @@ SaveCases == {c \in [fn : {"save"}, obj : Objs, npts : 1..4, ndim : {2, 3}, sem 
 Save3d == [fn : {"save"}, obj : {"hdc_multiregion3d"}, npts : {4}, ndim : {3}, sem : {0, 3},
            path : {1, 4}, aspath : BOOLEAN]
 DesignCases == [fn : {"design"}, obj : RealObjs, swap : BOOLEAN]
+(* plot_dependence_functions with dependence functions that are constant in the conditioning    *)
+(* value and return a scalar / a 0-d array / a 1-element array                                    *)
+DepCases == [fn : {"depconst"}, returns : {"scalar", "zerod", "one"}, constant : {"sigma", "mu", "all"},
+             fitted : BOOLEAN]
 PlotCases == {c \in [fn : {"plot"}, obj : Objs, npts : 1..4, swap : BOOLEAN, dc : DcKinds,
                      sample : BOOLEAN, sem : {0, 3}, axgiven : BOOLEAN] :
                 /\ (c.dc = "true" => c.npts >= 3)
@@ -153,11 +157,12 @@ ClosedPolyline == Drawn =>
 ----------------------------------------------------------------------------
 (* leg R: the initial states are the cases (plus the cases that only the driver executes) *)
 GenInit ==
-    /\ pc = "start" /\ cfg \in SaveCases \cup PlotCases \cup Save3d \cup DesignCases
+    /\ pc = "start" /\ cfg \in SaveCases \cup PlotCases \cup Save3d \cup DesignCases \cup DepCases
     /\ fpath = <<>> /\ lines = <<>> /\ parsed = <<>> /\ poly = <<>>
 GenSpec == GenInit /\ [][UNCHANGED vars]_vars
 CaseJson(c) ==
-    IF c.fn = "design" THEN [fn |-> "design", obj |-> c.obj, swap |-> c.swap]
+    IF c.fn = "depconst" THEN c
+    ELSE IF c.fn = "design" THEN [fn |-> "design", obj |-> c.obj, swap |-> c.swap]
     ELSE IF c.fn = "save"
     THEN [fn |-> "save", obj |-> c.obj, aspath |-> c.aspath, npts |-> c.npts, ndim |-> c.ndim, sem |-> c.sem,
           names |-> Names(c), units |-> Units(c), path |-> Paths[c.path]]
